@@ -561,6 +561,47 @@ Definition fetch_bucket (s : st) (n : N) : option (list (key * val)) :=
 Fixpoint nseq (start : N) (len : nat) : list N :=
   match len with O => [] | S l => start :: nseq (start + 1) l end.
 
+(* ItemIterator.Next: one shared critical section. The bound is re-read on every call; whole
+   buckets are drained into the queue until it is non-empty; then one item is popped. *)
+Record dbiter := { it_next : N; it_queue : list (key * val) }.
+Definition dbiter0 : dbiter := {| it_next := 0; it_queue := [] |}.
+
+Fixpoint dbiter_fill (fuel : nat) (s : st) (it : dbiter) : option dbiter :=
+  match it_queue it with
+  | _ :: _ => Some it
+  | [] =>
+    match fuel with
+    | O => Some it
+    | S f =>
+      match s_mem s with
+      | None => None
+      | Some m =>
+        if it_next it <? ix_nbuckets ops (m_idx m) then
+          match fetch_bucket s (it_next it) with
+          | None => None
+          | Some l => dbiter_fill f s {| it_next := it_next it + 1; it_queue := l |}
+          end
+        else Some it
+      end
+    end
+  end.
+
+(* None: the model left its domain (closed database / unreadable slot) *)
+Definition dbiter_step (s : st) (it : dbiter) : option (dbiter * option (key * val)) :=
+  match s_mem s with
+  | None => None
+  | Some m =>
+    let fuel := N.to_nat (ix_nbuckets ops (m_idx m) - it_next it) in
+    match dbiter_fill fuel s it with
+    | None => None
+    | Some it' =>
+      match it_queue it' with
+      | [] => Some (it', None)                      (* ErrIterationDone *)
+      | kv :: q => Some ({| it_next := it_next it'; it_queue := q |}, Some kv)
+      end
+    end
+  end.
+
 (* a full scan of a database nobody modifies *)
 Definition db_items (s : st) : out :=
   match s_mem s with
